@@ -204,7 +204,7 @@ pub fn def() -> CheckDef {
         ],
         real_components: "the emitting Foca instance and one fresh real peer instance per emitted datagram",
         stub_components: "incoming datagrams that provoke the replies are scripted",
-        batches: vec![Batch { scenario: &PackingSweep, quick: 0, thorough: 0 }, Batch { scenario: &H07, quick: 60_000, thorough: 3_000_000 }, Batch { scenario: crate::checks::histchecks::chaos_for("C07"), quick: 3_000, thorough: 150_000 }, Batch { scenario: crate::checks::histchecks::exhaustive_for("C07"), quick: 0, thorough: 0 }],
+        batches: vec![Batch { scenario: &PackingSweep, quick: 0, thorough: 0 }, Batch { scenario: &H07, quick: 60_000, thorough: 3_000_000 }, Batch { scenario: crate::checks::histchecks::chaos_for("C07"), quick: 6_000, thorough: 150_000 }, Batch { scenario: crate::checks::histchecks::exhaustive_for("C07"), quick: 0, thorough: 0 }],
         extra: None,
     }
 }
